@@ -366,7 +366,7 @@ theorem compile_inv {src : Source} {m : MState} (h : compile src = .ok m) :
         | ok cs =>
           rw [h4] at h
           simp only [Except.ok.injEq] at h
-          exact ⟨cells, names, b, cs, rfl, rfl, rfl, h4, h.symm⟩
+          exact ⟨cells, names, b, cs, rfl, h2, h3, h4, h.symm⟩
 
 /-- **`compile` is transparent** (see the header) -/
 theorem compile_transparent {src : Source} {m : MState} (h : compile src = .ok m) (hn : src.names = []) :
